@@ -135,8 +135,20 @@ def _attr_stores(func: ast.FunctionDef, receiver: str) -> Dict[str, ast.AST]:
                     loop = node
                     while loop is not None and not (isinstance(loop, ast.For) and isinstance(loop.target, ast.Name) and loop.target.id == name.id):
                         loop = getattr(loop, "_parent", None)
-                    if loop is not None and isinstance(loop.iter, (ast.Tuple, ast.List)):
-                        for elt in loop.iter.elts:
+                    seq = loop.iter if loop is not None else None
+                    if isinstance(seq, ast.Name):
+                        # a module-level constant tuple of attribute names
+                        root = func
+                        while getattr(root, "_parent", None) is not None:
+                            root = root._parent
+                        seq_name = seq.id
+                        for stmt in getattr(root, "body", []):
+                            tgt = stmt.targets[0] if isinstance(stmt, ast.Assign) and len(stmt.targets) == 1 else (
+                                stmt.target if isinstance(stmt, ast.AnnAssign) else None)
+                            if isinstance(tgt, ast.Name) and tgt.id == seq_name and getattr(stmt, "value", None) is not None:
+                                seq = stmt.value
+                    if isinstance(seq, (ast.Tuple, ast.List)):
+                        for elt in seq.elts:
                             if isinstance(elt, ast.Constant):
                                 out[elt.value] = node
                     else:
